@@ -26,6 +26,15 @@ package resmgr
 // None of the interface methods writes fields of resmgr/nriPlugin or the lock itself.
 
 //@ ghost unguarded bool
+// C11: what the cache refresh and the policy synchronisation were called with (set only by the assumed interface
+// contracts of cache.Cache.RefreshPods/RefreshContainers and policy.Policy.Sync below)
+//@ ghost refreshPodsN int
+//@ ghost refreshedPods []*api.PodSandbox
+//@ ghost refreshCtrsN int
+//@ ghost refreshedCtrs []*api.Container
+//@ ghost syncN int
+//@ ghost syncedAlloc []cache.Container
+//@ pure stateOf(c cache.Container) cache.ContainerState
 
 // Message dumping only logs (and marshals its arguments to YAML for the debug log).
 //@ assume-contract (*nriPlugin).dump
@@ -76,13 +85,15 @@ package resmgr
 //@   ensures forall i int, j int :: 0 <= i && i < j && j < len(result) ==> result[i] != result[j]
 //@   ensures forall c cache.Container :: marked(c) ==> exists i int :: 0 <= i && i < len(result) && result[i] == c
 //@ iface github.com/containers/nri-plugins/pkg/resmgr/cache.Cache.RefreshPods
-//@   modifies unguarded, ureq, adj, marks
+//@   modifies unguarded, ureq, adj, marks, refreshPodsN, refreshedPods
+//@   ensures refreshPodsN == old(refreshPodsN) + 1 && refreshedPods == arg0
 //@   ensures unguarded == (old(unguarded) || !sync.locked())
 //@   ensures old(pendOK()) ==> pendOK()
 //@   ensures forall c cache.Container :: ureq[c] != nil ==> ureq[c] == old(ureq)[c]
 //@   ensures forall i int :: 0 <= i && i < len(result2) ==> result2[i] != nil
 //@ iface github.com/containers/nri-plugins/pkg/resmgr/cache.Cache.RefreshContainers
-//@   modifies unguarded, ureq, adj, marks
+//@   modifies unguarded, ureq, adj, marks, refreshCtrsN, refreshedCtrs
+//@   ensures refreshCtrsN == old(refreshCtrsN) + 1 && refreshedCtrs == arg0
 //@   ensures unguarded == (old(unguarded) || !sync.locked())
 //@   ensures old(pendOK()) ==> pendOK()
 //@   ensures forall c cache.Container :: ureq[c] != nil ==> ureq[c] == old(ureq)[c]
@@ -107,7 +118,8 @@ package resmgr
 //@   ensures polN == old(polN) + 1 && polCfg == arg0
 //@   ensures old(pendOK()) ==> pendOK()
 //@ iface github.com/containers/nri-plugins/pkg/resmgr/policy.Policy.Sync
-//@   modifies unguarded, ureq, adj, marks
+//@   modifies unguarded, ureq, adj, marks, syncN, syncedAlloc
+//@   ensures syncN == old(syncN) + 1 && syncedAlloc == arg0
 //@   ensures unguarded == (old(unguarded) || !sync.locked())
 //@   ensures old(pendOK()) ==> pendOK()
 //@ iface github.com/containers/nri-plugins/pkg/resmgr/policy.Policy.AllocateResources
@@ -155,6 +167,7 @@ package resmgr
 //@ iface github.com/containers/nri-plugins/pkg/resmgr/cache.Container.GetID
 //@   ensures result == idOf(self)
 //@ iface github.com/containers/nri-plugins/pkg/resmgr/cache.Container.GetState
+//@   ensures result == stateOf(self)
 //@ iface github.com/containers/nri-plugins/pkg/resmgr/cache.Container.UpdateState
 //@ iface github.com/containers/nri-plugins/pkg/resmgr/cache.Container.InsertMount
 //@   modifies ureq, adj, marks
